@@ -12,9 +12,18 @@ Everything is exact: model outputs are rows of integers (scores multiplied by a 
 
 Quirks of the code that are mirrored here (line numbers of train.py):
 
-* l.47-48 `labels.squeeze()` / `outputs.squeeze()` drop EVERY axis of extent 1: a batch of one
-  sample loses its batch axis (`np.concatenate` / `np.argmax(axis=1)` raise), and a single score
-  column in the arg-max modes loses the class axis (`AxisError`).  `stepOk` = `false`, `evStep` = `none`.
+* l.47-50 every axis of extent 1 EXCEPT the batch axis is dropped (fix a611d24; before it `.squeeze()` also dropped
+  the batch axis and a batch of one sample raised in every mode — finding F-C20-1).  A batch of any size, one
+  sample included, goes through.  What still raises (`wellShaped` = `false`, `evStep` = `none`):
+  a single (or no) score column in the arg-max modes (`(N,1)` becomes `(N,)`, `np.argmax(axis=1)`: AxisError; `(N,0)`:
+  ValueError), likewise a single / no label column in categorical mode; in binary mode an output with a number of
+  columns other than one, and in binary / multi-class mode a label with a number of columns other than one
+  (the decoded array stays 2-D and `np.concatenate` with the 1-D buffer raises).  `none` says "the call raises";
+  what the buffers hold afterwards is not modelled (binary output with several columns: `y_true` has already
+  been extended when `y_pred` fails).
+* a `Sample` pairs a label with its output row: a call with a different number of labels and output rows is
+  outside the model (the code then leaves buffers of different lengths, and raises only if the comparison
+  `y_true == y_pred` cannot broadcast and accuracy is enabled).
 * l.64-65 the decoded labels are stored as `int16` (`wrap16`).
 * l.75 accuracy of an empty buffer is `0 / 0`: NumPy returns `nan` (with a RuntimeWarning), it does
   not raise.  `MVal.frac 0 0`; `MVal.toRat?` is `none` exactly there.
@@ -116,14 +125,17 @@ def computeMetrics (cfg : EvCfg) (yt yp : List Int) (pre : Option String) (cb : 
   let metrics := metrics ++ (match cb with | none => [] | some f => f yt yp)
   prefixed pre metrics
 
-/-- do l.47-68 go through for this batch?  (`squeeze()` must leave the batch axis, and in the
-    arg-max modes the class axis, in place) -/
-def stepOk (mode : Mode) (b : List Sample) : Bool :=
-  b.length != 1 &&
-  (match mode with
-   | .binary => true
-   | .multiClass => b.all (fun s => decide (2 ≤ s.score.length))
-   | .categorical => b.all (fun s => decide (2 ≤ s.score.length) && decide (2 ≤ s.label.length)))
+/-- does one sample have the shape l.47-68 need in this mode?  (after the singleton axes other than the batch
+    axis are gone: binary — one output and one label entry; multi-class — at least two scores, one label entry;
+    categorical — at least two scores and at least two label entries) -/
+def wellShaped (mode : Mode) (s : Sample) : Bool :=
+  match mode with
+  | .binary => decide (s.score.length = 1) && decide (s.label.length = 1)
+  | .multiClass => decide (2 ≤ s.score.length) && decide (s.label.length = 1)
+  | .categorical => decide (2 ≤ s.score.length) && decide (2 ≤ s.label.length)
+
+/-- do l.47-68 go through for this batch?  Any number of samples (0, 1, …), every one of them well shaped. -/
+def stepOk (mode : Mode) (b : List Sample) : Bool := b.all (wellShaped mode)
 
 def batchTrue (cfg : EvCfg) (b : List Sample) : List Int := b.map (fun s => wrap16 (decodeTrue cfg.mode s))
 def batchPred (cfg : EvCfg) (b : List Sample) : List Int := b.map (fun s => wrap16 (decodePred cfg.mode cfg.scale s))
